@@ -54,9 +54,23 @@ type TLSConfig struct {
 	InsecureSkipVerify bool
 
 	// tlsConfig is the internal Go TLS configuration
-	tlsConfig   *tls.Config
-	mu          sync.RWMutex
-	currentCert atomic.Pointer[tls.Certificate] // atomically updated for concurrent reads
+	tlsConfig *tls.Config
+	mu        sync.RWMutex
+	// currentCert holds the certificate handed out by GetCertificate. The
+	// holder is shared with every Clone, so that ReloadCertificates on a copy
+	// of the settings (GetExportOptions returns copies) reaches the listener.
+	currentCert *atomic.Pointer[tls.Certificate]
+	certOnce    sync.Once
+}
+
+// certHolder returns the certificate holder, creating it on first use.
+func (tc *TLSConfig) certHolder() *atomic.Pointer[tls.Certificate] {
+	tc.certOnce.Do(func() {
+		if tc.currentCert == nil {
+			tc.currentCert = new(atomic.Pointer[tls.Certificate])
+		}
+	})
+	return tc.currentCert
 }
 
 // DefaultTLSConfig returns a TLS configuration with secure defaults
@@ -154,12 +168,13 @@ func (tc *TLSConfig) BuildConfig() (*tls.Config, error) {
 	}
 
 	// Store cert atomically for concurrent-safe access
-	tc.currentCert.Store(&cert)
+	holder := tc.certHolder()
+	holder.Store(&cert)
 
 	// Create base TLS config using GetCertificate callback for hot-reload support
 	config := &tls.Config{
 		GetCertificate: func(*tls.ClientHelloInfo) (*tls.Certificate, error) {
-			return tc.currentCert.Load(), nil
+			return holder.Load(), nil
 		},
 		MinVersion:               tc.MinVersion,
 		MaxVersion:               tc.MaxVersion,
@@ -225,7 +240,7 @@ func (tc *TLSConfig) ReloadCertificates() error {
 
 	// Atomically update the certificate - the GetCertificate callback
 	// will pick up the new cert on the next TLS handshake
-	tc.currentCert.Store(&cert)
+	tc.certHolder().Store(&cert)
 
 	return nil
 }
@@ -316,6 +331,7 @@ func (tc *TLSConfig) Clone() *TLSConfig {
 		MaxVersion:               tc.MaxVersion,
 		PreferServerCipherSuites: tc.PreferServerCipherSuites,
 		InsecureSkipVerify:       tc.InsecureSkipVerify,
+		currentCert:              tc.certHolder(), // shared: see the field comment
 	}
 
 	// Copy cipher suites slice
